@@ -4,6 +4,6 @@
 n=$1; p=$2; c=${3:-root}; w=/tmp/seed_$n
 sh /verif/engine/confirm_seed.sh $w $w/target $c > /tmp/confirm_$n.log 2>&1
 cd $w && git checkout -q -- . && git apply SEED/patch.diff || { echo "PATCH DOES NOT APPLY" > /tmp/check_$n.log; exit 3; }
-VERIF_GEN=/tmp/gen_$n VERIF_REPO=$w /verif/check $p > /tmp/check_$n.full 2>&1; echo "exit=$?" >> /tmp/check_$n.full
+mkdir -p /tmp/evid_$n; VERIF_EVID=/tmp/evid_$n VERIF_GEN=/tmp/gen_$n VERIF_REPO=$w /verif/check $p > /tmp/check_$n.full 2>&1; echo "exit=$?" >> /tmp/check_$n.full
 grep -E "^(VIOLATION|OK|UNDECIDED|KNOWN|exit=)" /tmp/check_$n.full | cut -c1-300 > /tmp/check_$n.log
 cd $w && git checkout -q -- .
